@@ -41,6 +41,15 @@ StaticOK(len, g) ==
   /\ \A v, w \in WorkersOf(len, g) : v # w => RngOf(len, g, v) \cap RngOf(len, g, w) = {}
   /\ UNION {RngOf(len, g, w) : w \in WorkersOf(len, g)} = 0 .. (len - 1)
 
+\* the hypotheses of the TLAPS theorems in proofs/PartitionProof.tla (which hold for unbounded
+\* len and g): TLC checks them for the grid, the trace judge for every recorded partition
+ProofHypotheses(len, g) ==
+  LET per == PerOf(len, g)
+      n == NOf(len, g)
+  IN /\ per >= 1 /\ per * g >= len
+     /\ (n - 1) * per < len /\ len <= n * per
+     /\ (per % 16) = 0
+
 (**************** the worker pool ******************************************)
 Workers == WorkersOf(NBytes, G)
 Lo(w) == LoOf(NBytes, G, w)
